@@ -157,7 +157,19 @@ func plans(id, tier string) (Plan, bool) {
 			jobs = append(jobs, Job{Pkg: pkgSC, Harness: "c14_sched", Instr: "v1", Params: "scenario=0;policy=delay;budget=2;accessyields=yes", Shards: 8})
 		}
 		jobs = append(jobs, Job{Pkg: pkgSC, Harness: "c14_race", Race: true, MaxProcs: 16})
+		jobs = append(jobs, Job{Pkg: pkgExtV1, Harness: "c14_license_sched", Instr: "v1", Shards: pick(4, 16)})
+		jobs = append(jobs, Job{Pkg: pkgExtV1, Harness: "c14_license_race", Race: true, MaxProcs: 16})
 		return Plan{Level: "model_checking", Jobs: jobs}, true
+	case "C15":
+		return Plan{Level: "exploration", Jobs: []Job{
+			{Pkg: pkgExtV1, Harness: "c15_archive", Instr: "v1", Params: "mode=singles", Shards: 16},
+			{Pkg: pkgExtV1, Harness: "c15_archive", Instr: "v1", Params: "mode=tuples", Shards: 16},
+		}}, true
+	case "C16":
+		return Plan{Level: "exploration", Jobs: []Job{
+			{Pkg: pkgExtV1, Harness: "c16_corpus", Instr: "v1", Shards: 16},
+			{Pkg: pkgExtV1, Harness: "c16_threshold", Instr: "v1", Shards: pick(8, 16)},
+		}}, true
 	case "C17":
 		return Plan{Level: "exploration", Jobs: []Job{
 			{Pkg: pkgTok, Harness: "c17_tokens", Shards: pick(4, 16)},
